@@ -251,12 +251,16 @@ VP_HARNESS(h_xml_roundtrip)
 #endif
 #endif
 #if WITH_MEMATTR
-  { struct hwloc_location loc; loc.type = HWLOC_LOCATION_TYPE_CPUSET; loc.location.cpuset = SA.pkg[0]->cpuset;
-    int r = hwloc_memattr_set_value(A, HWLOC_MEMATTR_ID_BANDWIDTH, SA.numa[0], &loc, 0, 100); VP_ASSUME(r == 0);
+  { struct hwloc_location loc; int r;
+#if WITH_MEMATTR >= 2
+    loc.type = HWLOC_LOCATION_TYPE_CPUSET; loc.location.cpuset = SA.pkg[0]->cpuset;
+    r = hwloc_memattr_set_value(A, HWLOC_MEMATTR_ID_BANDWIDTH, SA.numa[0], &loc, 0, 100); VP_ASSUME(r == 0);
     loc.location.cpuset = SA.pkg[1]->cpuset; r = hwloc_memattr_set_value(A, HWLOC_MEMATTR_ID_BANDWIDTH, SA.numa[1], &loc, 0, 50); VP_ASSUME(r == 0);
+#endif
     loc.type = HWLOC_LOCATION_TYPE_OBJECT; loc.location.object = SA.pkg[1]; r = hwloc_memattr_set_value(A, HWLOC_MEMATTR_ID_LATENCY, SA.numa[1], &loc, 0, 7); VP_ASSUME(r == 0);
     hwloc_memattr_id_t id; r = hwloc_memattr_register(A, "Custom", HWLOC_MEMATTR_FLAG_HIGHER_FIRST, &id); VP_ASSUME(r == 0);
-    r = hwloc_memattr_set_value(A, id, SA.numa[1], NULL, 0, 42); VP_ASSUME(r == 0); }
+    r = hwloc_memattr_set_value(A, id, SA.numa[1], NULL, 0, 42); VP_ASSUME(r == 0);
+    r = hwloc_memattr_set_value(A, id, SA.numa[0], NULL, 0, 18446744073709551615ULL); VP_ASSUME(r == 0); }
 #endif
 #if WITH_CPUKINDS
   { struct hwloc_infos_s inf; inf.array = NULL; inf.count = inf.allocated = 0; hwloc__add_info(&inf, "CoreType", "big");
@@ -596,4 +600,91 @@ VP_HARNESS(h_xml_documents)
   int c = (int) vp_in_range(DOC_LO, DOC_HI);
   for (int v = DOC_LO; v <= DOC_HI; v++) if (c == v) doc_case(v);
   VP_WITNESS_IF(doc_loaded + doc_refused >= 1, "a document of this slice processed");
+}
+
+/* ---- topology diffs through the common XML code (C16: a diff survives export/load; C06: any diff document is refused or imported safely) ------------ */
+static hwloc_topology_diff_t mk_diff_size(int depth, unsigned idx, uint64_t o, uint64_t n)
+{ struct hwloc_topology_diff_obj_attr_s *d = malloc(sizeof *d); VP_NONNULL(d); static const struct hwloc_topology_diff_obj_attr_s z; *d = z; d->type = HWLOC_TOPOLOGY_DIFF_OBJ_ATTR; d->obj_depth = depth; d->obj_index = idx;
+  d->diff.uint64.type = HWLOC_TOPOLOGY_DIFF_OBJ_ATTR_SIZE; d->diff.uint64.oldvalue = o; d->diff.uint64.newvalue = n; return (hwloc_topology_diff_t) d; }
+static hwloc_topology_diff_t mk_diff_str(int depth, unsigned idx, int info, const char *name, const char *o, const char *n)
+{ struct hwloc_topology_diff_obj_attr_s *d = malloc(sizeof *d); VP_NONNULL(d); static const struct hwloc_topology_diff_obj_attr_s z; *d = z; d->type = HWLOC_TOPOLOGY_DIFF_OBJ_ATTR; d->obj_depth = depth; d->obj_index = idx;
+  d->diff.string.type = info ? HWLOC_TOPOLOGY_DIFF_OBJ_ATTR_INFO : HWLOC_TOPOLOGY_DIFF_OBJ_ATTR_NAME; d->diff.string.name = (char *) name; d->diff.string.oldvalue = (char *) o; d->diff.string.newvalue = (char *) n; return (hwloc_topology_diff_t) d; }
+VP_HARNESS(h_xml_diff_roundtrip)
+{
+  hwloc_topology_diff_t e0 = mk_diff_size(HWLOC_TYPE_DEPTH_NUMANODE, 1, 1024, 18446744073709551615ULL), e1 = mk_diff_str(1, 0, 0, NULL, "old name", "new"), e2 = mk_diff_str(2, 3, 1, "Key", "a", "bb");
+#ifndef DENTRY
+#define DENTRY 3      /* 3: the list of three entries; 0..2: one entry alone */
+#endif
+#if DENTRY == 3
+  e0->generic.next = e1; e1->generic.next = e2; e2->generic.next = NULL;
+#else
+  e0->generic.next = e1->generic.next = e2->generic.next = NULL;
+  hwloc_topology_diff_t only = DENTRY == 0 ? e0 : DENTRY == 1 ? e1 : e2;
+  e0 = only;
+#endif
+  struct tt_elem *root = tt_new("topologydiff");
+  static struct hwloc__xml_export_state_s xs;
+  xs.parent = NULL; xs.new_child = tt_x_new_child; xs.new_prop = tt_x_new_prop; xs.add_content = tt_x_add_content; xs.end_object = tt_x_end_object; xs.global = &tt_edata;
+  tt_nmap = 0; tt_bind(&xs, root);
+  hwloc__xml_export_diff(&xs, e0);
+  VP_CHECK(!tt_overflow && root->nchildren == (DENTRY == 3 ? 3 : 1), "one <diff> element per entry");
+  tt_backend_data(&vp_x_bd, root);
+  struct hwloc__xml_import_state_s is; tt_nmap = 0; tt_state_at(&is, &vp_x_bd, root);
+  hwloc_topology_diff_t got = NULL;
+  int r = hwloc__xml_import_diff(&is, &got);
+  VP_CHECK(r == 0 && got != NULL, "the exported diff is imported");
+#if DENTRY == 3
+  hwloc_topology_diff_t g0 = got, g1 = g0 ? g0->generic.next : NULL, g2 = g1 ? g1->generic.next : NULL;
+  VP_CHECK(g0 && g1 && g2 && !g2->generic.next, "same number of entries, in order");
+#else
+  hwloc_topology_diff_t g0 = got, g1 = got, g2 = got;
+  VP_CHECK(got && !got->generic.next, "one entry");
+#endif
+  if (g0 && g1 && g2) {
+    if (DENTRY == 3 || DENTRY == 0)
+    VP_CHECK(g0->obj_attr.type == HWLOC_TOPOLOGY_DIFF_OBJ_ATTR && g0->obj_attr.obj_depth == HWLOC_TYPE_DEPTH_NUMANODE && g0->obj_attr.obj_index == 1 && g0->obj_attr.diff.uint64.type == HWLOC_TOPOLOGY_DIFF_OBJ_ATTR_SIZE
+             && g0->obj_attr.diff.uint64.oldvalue == 1024 && g0->obj_attr.diff.uint64.newvalue == 18446744073709551615ULL, "size entry: same (negative) depth, index and 64-bit values");
+    if (DENTRY == 3 || DENTRY == 1)
+    VP_CHECK(g1->obj_attr.obj_depth == 1 && g1->obj_attr.obj_index == 0 && g1->obj_attr.diff.string.type == HWLOC_TOPOLOGY_DIFF_OBJ_ATTR_NAME && !g1->obj_attr.diff.string.name
+             && !strcmp(g1->obj_attr.diff.string.oldvalue, "old name") && !strcmp(g1->obj_attr.diff.string.newvalue, "new"), "name entry: same strings");
+    if (DENTRY == 3 || DENTRY == 2)
+    VP_CHECK(g2->obj_attr.obj_depth == 2 && g2->obj_attr.obj_index == 3 && g2->obj_attr.diff.string.type == HWLOC_TOPOLOGY_DIFF_OBJ_ATTR_INFO && !strcmp(g2->obj_attr.diff.string.name, "Key")
+             && !strcmp(g2->obj_attr.diff.string.oldvalue, "a") && !strcmp(g2->obj_attr.diff.string.newvalue, "bb"), "info entry: same name and values");
+  }
+  VP_WITNESS("diff export + import executed");
+}
+/* crafted <diff> elements: 0 complete size entry, 1 no type, 2 unknown attribute, 3 missing depth, 4 missing new value, 5 info without name, 6 another diff type (7), 7 unknown obj_attr_type, 8 unknown child tag */
+static unsigned dc_runs;
+static void diff_case(int c)
+{
+  struct tt_elem *root = tt_new("topologydiff");
+  struct tt_elem *d = tt_child(root, c == 8 ? "bogus" : "diff");
+  if (c != 1) tt_attr(d, "type", c == 6 ? "7" : "0");
+  if (c == 2) tt_attr(d, "bogus", "1");
+  if (c != 3) tt_attr(d, "obj_depth", "1");
+  tt_attr(d, "obj_index", "0");
+  tt_attr(d, "obj_attr_type", c == 5 ? "2" : c == 7 ? "9" : "0");
+  tt_attr(d, "obj_attr_oldvalue", "1");
+  if (c != 4) tt_attr(d, "obj_attr_newvalue", "2");
+  tt_backend_data(&vp_x_bd, root);
+  struct hwloc__xml_import_state_s is; tt_nmap = 0; tt_state_at(&is, &vp_x_bd, root);
+  hwloc_topology_diff_t got = (hwloc_topology_diff_t) 1;
+  int r = hwloc__xml_import_diff(&is, &got);
+  dc_runs++;
+  VP_CHECK(r == 0 || r == -1, "import_diff returns 0 or -1");
+  if (c == 2 || c == 8) VP_CHECK(r == -1, "an unknown attribute or element is refused");
+  else {
+    VP_CHECK(r == 0, "a diff element with missing or unknown optional parts is consumed");
+    if (c == 0 || c == 7) VP_CHECK(got && !got->generic.next && got->obj_attr.obj_depth == 1 && got->obj_attr.diff.generic.type == (c == 0 ? HWLOC_TOPOLOGY_DIFF_OBJ_ATTR_SIZE : 9), "a complete entry is imported");
+    else VP_CHECK(got == NULL, "an incomplete entry, or an entry of another kind, adds nothing");
+    if (c == 0 && got) VP_CHECK(got->obj_attr.diff.uint64.oldvalue == 1 && got->obj_attr.diff.uint64.newvalue == 2, "values as written");
+    /* whatever was imported can be destroyed */
+    if (got) hwloc_topology_diff_destroy(got);
+  }
+}
+VP_HARNESS(h_import_diff)
+{
+  int c = (int) vp_in_range(0, 8);
+  for (int v = 0; v <= 8; v++) if (c == v) diff_case(v);
+  VP_WITNESS_IF(dc_runs == 1, "a case executed");
 }
